@@ -255,6 +255,7 @@ def run(ctx):
                            mdepth, mdepth + 1, "{0,2}" if q else "{0,1,2}")
     # 5. the pooled connection while no request uses it: heartbeats, fail / idle close (KeepAlive.tla)
     keepalive_part.run_part(ctx, "C09")
+    __import__("conn_part").run(ctx, "C09")     # 6. the connection object itself: close event exactly once, Write/Close races (spec/network/Connection.tla)
     ctx.cov["rule"] += ("; keep-alive of a pooled connection (KeepAlive): TLC-enumerated operation sequences over {tick, ordinary stream, answer, "
                         "time-out, late answer, peer closes} for tick thresholds x fail threshold x idle limit, replayed into the real keep-alive object "
                         "with logical time-outs, real timers and the real fast-fail task")
